@@ -74,7 +74,8 @@ def compile_text(ctx, text: str, flags: int = 0, custom=None, cache=True, persis
     me = Obj(_cls='css_parser.CSSParser', _name='parser')
     opts = {'regex_engine': True, 'real_immutable': True, 'max_depth': 120, 'persist': persist if persist is not None else ctx._cache.setdefault('e2e-persist', {})}
     stubs = {'util.lower': strict_lower}
-    for attempt in (0, 1):
+    deep_retry, levels = False, 0
+    for attempt in (0, 1, 2):
         try:
             # the custom map goes through process_custom, as in compile(): names are validated and a fresh table is built
             table = call_function(ctx, 'css_parser.process_custom', [dict(custom)], {}, stubs, None, opts) if custom is not None else None
@@ -85,10 +86,28 @@ def compile_text(ctx, text: str, flags: int = 0, custom=None, cache=True, persis
             msg = e.args_[0] if getattr(e, 'args_', None) and isinstance(e.args_[0], str) else None
             out = Outcome(raises=e.exc_name, message=msg, extra={'args': tuple(a for a in (getattr(e, 'args_', None) or ()) if isinstance(a, (str, int)))})
         except RecursionError:
+            if deep_retry:
+                out = Outcome(raises='RecursionError', message=f'the call depth of the interpreted parser passed {opts["max_depth"]} frames for '
+                              f'{levels} nesting level(s) of the input (brackets + custom definitions): the recursion does not end with the input')
+                break
             raise AnalysisError(f'compiling {text!r}: the evaluator ran out of stack')
         except Unsupported as e:
+            if 'call depth exceeded' in str(e) and custom:
+                # nesting that the input itself asks for is bounded by its brackets and by the custom definitions (each expanded at
+                # most once on a path); a call depth far beyond that (>= 30 frames per level, the parser needs about 5) is recursion
+                # that does not end with the input - what the interpreter of the real program reports as RecursionError
+                levels = 1 + text.count('(') + sum(str(v).count('(') for v in custom.values()) + len(custom)
+                if deep_retry:
+                    out = Outcome(raises='RecursionError', message=f'the call depth of the interpreted parser passed {opts["max_depth"]} frames for '
+                                  f'{levels} nesting level(s) of the input (brackets + custom definitions): the recursion does not end with the input')
+                    break
+                if 400 >= 30 * levels:
+                    deep_retry = True
+                    opts = dict(opts, max_depth=400)
+                    me = Obj(_cls='css_parser.CSSParser', _name='parser')
+                    continue
             if 'loop bound exceeded' in str(e) and len(text) < 200:
-                if attempt == 0:
+                if "loop_cap" not in opts:
                     opts = dict(opts, loop_cap=DIVERGENCE_BOUND, max_steps=20_000_000)
                     me = Obj(_cls='css_parser.CSSParser', _name='parser')
                     continue
